@@ -191,9 +191,9 @@ class Interp:
                 return r
         bnd = getattr(v, 'bounds', None)
         if bnd is not None:
-            if bnd[0] > 0:
+            if bnd[0] > 0 or (bnd[1] is not None and bnd[1] < 0):
                 return True
-            if bnd[1] == 0:
+            if bnd[1] == 0 and bnd[0] == 0:
                 return False
         key = ('truth', self.vkey(v))
         return self.decide(key, f'truth({vrepr(v)[:40]})', node)
@@ -793,6 +793,14 @@ class Interp:
                     return K(True)
                 if hi is not None and (tt is ast.GtE and hi < c or tt is ast.Gt and hi <= c) or tt is ast.LtE and lo > c or tt is ast.Lt and lo >= c:
                     return K(False)
+        ra, rb = self.models.irange(a), self.models.irange(b)
+        if ra is not None and rb is not None:
+            (alo, ahi), (blo, bhi) = ra, rb
+            dec = {ast.Lt: (ahi < blo, alo >= bhi), ast.LtE: (ahi <= blo, alo > bhi), ast.Gt: (alo > bhi, ahi <= blo), ast.GtE: (alo >= bhi, ahi < blo)}[t]
+            if dec[0]:
+                return K(True)
+            if dec[1]:
+                return K(False)
         return Cond(('cmp', t.__name__, repr(self.vkey(a)), repr(self.vkey(b))), True,
                     f'{vrepr(a)[:40]} {t.__name__} {vrepr(b)[:40]}')
 
@@ -898,6 +906,9 @@ class Interp:
                     raise RaiseEx('TypeError', f'{type(a.v).__name__} {_OPNAME[t]} {type(b.v).__name__}')
                 except (ValueError, OverflowError) as e:
                     raise RaiseEx(type(e).__name__, str(e))
+        r = self.models.bounded_binop(self, t, a, b)
+        if r is not None:
+            return r
         pa, pb = as_poly(a), as_poly(b)
         if pa is not None and pb is not None and (isinstance(a, PInt) or isinstance(b, PInt)) \
                 and not (isinstance(a, K) and isinstance(a.v, bool) and False):
